@@ -532,6 +532,7 @@ func (e *Exec) substr(s, lo, hi, pc string) string {
 	n := e.fresh("sub", sStr)
 	e.assume(mkEq(n, t))
 	e.assume(mkImp(pc, mkEq(app("slen", n), app("bvsub", hi, lo))))
+	e.strInv(n, pc)
 	return n
 }
 
@@ -701,6 +702,7 @@ func (e *Exec) concat(a, b, pc string) string {
 	n := e.fresh("cat", sStr)
 	e.assume(mkEq(n, app("sconcat", a, b)))
 	e.assume(mkEq(app("slen", n), app("bvadd", app("slen", a), app("slen", b))))
+	e.strInv(n, pc)
 	return n
 }
 
@@ -765,6 +767,7 @@ func (e *Exec) strOfBytes(st *State, v Val, pc string) string {
 	n := e.fresh("str_of", sStr)
 	e.assume(mkEq(n, app("sfrom", sel(arr, v.sBase()), v.sOff(), v.sLen())))
 	e.assume(mkImp(pc, mkEq(app("slen", n), v.sLen())))
+	e.strInv(n, pc)
 	return n
 }
 
